@@ -513,8 +513,9 @@ class MQTTBaseProtocol(Protocol):
     def connectionLost(self, reason):
         log.debug("--- Connection to MQTT Broker lost")
         self._stopKeepalive()
-        self.doConnectionLost(reason)
+        # Idle first: the errbacks fired below may call back into the API
         self.state = self.IDLE
+        self.doConnectionLost(reason)
         # The disconnect callback is invoked in another reactor loop cycle
         # Otherwise, the reconnection attempt happens before connection cleanup
         # which obviopusly it si not what we want.
